@@ -366,7 +366,7 @@ func udpCases(thorough bool) [][]UDPCase {
 				if c.AnyPort && s.Port == "0" {
 					continue // port 0 is the any-port latch's "unset" value: outside the statement
 				}
-				if c.Side == "server-udp-play" && x.target == "rtp" && s.Expect == "accept" {
+				if (c.Side == "server-udp-play" || c.Side == "client-udp-record") && x.target == "rtp" && (s.Expect == "accept" || c.relaxed()) {
 					continue // a playing session receives no RTP: nothing to deliver
 				}
 				if c.Auto && s.Expect != "ignore" {
@@ -397,6 +397,11 @@ func udpCases(thorough bool) [][]UDPCase {
 	add(UDPCase{Side: "server-udp", Phase: "established", Timeouts: "short", Silence: true, TwoSess: true},
 		[]Src{{"other-session-peer", "right16", "other-session", "ignore"}, {"other-session-peer", "right4", "other-session", "ignore"}, {"right-source", "right16", "right", "accept"}}, full)
 	add(UDPCase{Side: "server-udp-libpub", Phase: "established", Timeouts: "short"}, all, full)
+	for _, ph := range []string{"fresh", "established"} {
+		for _, anyPort := range []bool{false, true} {
+			add(UDPCase{Side: "client-udp-record", AnyPort: anyPort, Phase: ph, Timeouts: "short"}, all, play)
+		}
+	}
 	add(UDPCase{Side: "client-udp", Auto: true, Phase: "fresh", Timeouts: "short"}, foreignSources(), full)
 	add(UDPCase{Side: "client-udp", Auto: true, AnyPort: true, Phase: "fresh", Timeouts: "short"}, foreignSources(), full)
 	if thorough {
@@ -440,7 +445,7 @@ func main() {
 		evid.ServeWorker(worker)
 	}
 	run := evid.New("C19", "model_checking")
-	run.Rule("part A: case = (receiving side in {server recording from a raw publisher, server recording from the library Client, server playing to a raw player, library Client playing} x any-port option x automatic-protocol option x phase {nothing received yet, established} x configured timeouts) x source class (16 foreign: right IP with port +2/-2/1/65535/0/sibling RTP<->RTCP port, 127.0.0.2 in 4- and 16-byte form, 10.0.0.1, ::1, ::127.0.0.1, 7f00:1::, with right and wrong ports, the peer of another session; 3 forms of the right source) x content {garbage, empty, valid RTP with negotiated payload type/SSRC/next sequence number, valid RTCP SR, valid RTCP RR} x destination socket {RTP, RTCP}: full product, one fresh world per case. part B: every sequence over the owner alphabet {ANNOUNCE, SETUP track 0, SETUP track 1, SETUP refused by the application (first request only), PLAY, PAUSE, RECORD} up to the stated depth whose requests all succeed, over TCP-interleaved and UDP x intruder source {other IPs, same IP other connection} x intruder request {OPTIONS, DESCRIBE, SETUP(another track), PLAY, PAUSE, RECORD, TEARDOWN, GET_PARAMETER, SET_PARAMETER, ANNOUNCE} carrying the owner's session id. states = distinct (side, options, phase, source class) and (session state, transport, number of medias, intruder kind) situations; transitions = requests and datagrams executed; every case runs on the implementation. non-trivial = every case (each carries a foreign or alternative source)")
+	run.Rule("part A: case = (receiving side in {server recording from a raw publisher, server recording from the library Client, server playing to a raw player, library Client playing, library Client recording} x any-port option x automatic-protocol option x phase {nothing received yet, established} x configured timeouts) x source class (16 foreign: right IP with port +2/-2/1/65535/0/sibling RTP<->RTCP port, 127.0.0.2 in 4- and 16-byte form, 10.0.0.1, ::1, ::127.0.0.1, 7f00:1::, with right and wrong ports, the peer of another session; 3 forms of the right source) x content {garbage, empty, valid RTP with negotiated payload type/SSRC/next sequence number, valid RTCP SR, valid RTCP RR} x destination socket {RTP, RTCP}: full product, one fresh world per case. part B: every sequence over the owner alphabet {ANNOUNCE, SETUP track 0, SETUP track 1, SETUP refused by the application (first request only), PLAY, PAUSE, RECORD} up to the stated depth whose requests all succeed, over TCP-interleaved and UDP x intruder source {other IPs, same IP other connection} x intruder request {OPTIONS, DESCRIBE, SETUP(another track), PLAY, PAUSE, RECORD, TEARDOWN, GET_PARAMETER, SET_PARAMETER, ANNOUNCE} carrying the owner's session id. states = distinct (side, options, phase, source class) and (session state, transport, number of medias, intruder kind) situations; transitions = requests and datagrams executed; every case runs on the implementation. non-trivial = every case (each carries a foreign or alternative source)")
 	run.Assume("the reference execution (same script without the foreign datagram, same virtual clock) defines 'as if nothing had been injected'; it is run twice per configuration and must agree with itself")
 	run.Assume("absence of a callback is concluded behind a barrier: legitimate datagrams sent afterwards to the same sockets (memnet sockets are FIFO) have been delivered; absence of a timeout is concluded only after 2x(timeout + check period + 1 s) of virtual time and a wall-clock hang limit (5 s, 10 s when confirming)")
 	run.Assume("timeout precision: a timeout that comes later than timeout + period + 1 s but within twice that is accepted (the library re-arms its check timer relative to the instant it processes a tick, so a loaded machine shifts it); a close earlier than the timeout is reported")
@@ -482,11 +487,11 @@ func main() {
 		run.Finish()
 	}
 
-	depth := 3
+	depth := 4
 	kinds := []string{"other-ip/127.0.0.2", "other-ip/::1", "same-ip-other-conn"}
 	chunk := 12
 	if run.Thorough() {
-		depth = 5
+		depth = 6
 		kinds = []string{"other-ip/127.0.0.2", "other-ip/10.0.0.1", "other-ip/::1", "other-ip/::127.0.0.1", "same-ip-other-conn", "same-ip-4byte"}
 	}
 	if v := os.Getenv("C19_DEPTH"); v != "" {
@@ -517,6 +522,7 @@ func main() {
 
 func collect(run *evid.Run, jobs []any, res []evid.JobResult) {
 	counters := map[string]int64{}
+	situations := map[string]bool{}
 	var harness, leaks []string
 	for i, r := range res {
 		part := jobs[i].(Job).Kind
@@ -538,6 +544,9 @@ func collect(run *evid.Run, jobs []any, res []evid.JobResult) {
 		run.Transition(o.Transitions)
 		for _, s := range o.States {
 			run.State(s)
+			if strings.HasPrefix(s, "control/") {
+				situations[s] = true
+			}
 		}
 		for _, s := range o.Outcomes {
 			run.Outcome(s)
@@ -566,6 +575,12 @@ func collect(run *evid.Run, jobs []any, res []evid.JobResult) {
 		}
 	}
 	run.Set("counters", counters)
+	var sl []string
+	for k := range situations {
+		sl = append(sl, k)
+	}
+	sort.Strings(sl)
+	run.Set("control_situations", sl)
 	if len(leaks) > 0 {
 		run.Set("library_goroutines_left_at_job_end", leaks[:min(len(leaks), 5)])
 	}
